@@ -1181,6 +1181,14 @@ def await_shapes():
     A(P("await-two-atomics", SJ(2) + JJ(2), [st("x", 1, "rel"), st("y", 1, "rel")], [await_("x", "acq"), await_("y", "acq"), ld("x")]))
     A(P("await-two-atomics-rlx", SJ(2) + JJ(2), [st("x", 1), st("y", 1)], [await_("y", "rlx"), await_("x", "rlx")]))
     A(P("await-under-lock", SJ(2) + JJ(2), [st("x", 1, "rel")] + CS("m", ld("y")), CS("m", await_("x", "acq"), st("y", 1))))
+    # the waiter has yielded before; it then reads a store for the first time (its exit value), a later store to the same
+    # atomic exists, and it reads the atomic again without yielding: the exit value may still be returned
+    A(P("await-exit-value-reread", [spawn(2), I("yield"), await_("x", "rlx"), ld("d"), ld("x"), join(2)], [st("x", 1), st("x", 2), st("d", 1)]))
+    A(P("await-exit-value-reread-spin", [spawn(2), I("yield"), I("await", "x", ord="rlx", k="spin"), ld("d"), ld("x"), join(2)],
+        [st("x", 1), st("x", 2), st("d", 1)]))
+    A(P("await-exit-value-reread-2writers", SJ(3) + JJ(3), [st("x", 1)], [st("x", 2), st("d", 1)],
+        [I("yield"), await_("x", "rlx"), ld("d"), ld("x")]))
+    A(P("await-twice-reread", [spawn(2), await_("y", "rlx"), await_("x", "rlx"), ld("d"), ld("x"), join(2)], [st("y", 1), st("x", 1), st("x", 2), st("d", 1)]))
     # at the spinner's yield point another thread is blocked (main, in a join) and exactly one thread can run; the
     # blocked thread establishes the condition only after it was unblocked
     A(P("await-main-sets-after-join", [spawn(2), spawn(3), join(3), st("x", 1, "rel"), join(2)], [await_("x", "acq"), ld("y")], [st("y", 1)]))
@@ -1326,6 +1334,12 @@ def future_shapes():
         A(P(f"blockon-in-thread[{k}]", [spawn(2), st("f", 1, "rel"), WK, join(2)], [BO(k)]))
         A(P(f"handover[{k}]", [spawn(2), BO(k), rd("c"), join(2)], [wr("c"), st("f", 1, "rel"), WK]))
         A(P(f"already-ready[{k}]", [st("f", 1), BO(k)]))
+        # the waker stores an intermediate value before the final one; the future is ready at the final value only. A wake
+        # that arrives during a poll is never lost, also when the following wait returns spuriously (it stays pending)
+        B2 = lambda ordr: I("blockon", "w", o2="f", k=k, ord=ordr, v=2)
+        for ordr in ("acq", "rlx"):
+            A(P(f"blockon-two-stores[{k},{ordr}]", [spawn(2), B2(ordr), join(2)], [st("f", 1, "rel"), st("f", 2, "rel"), WK]))
+            A(P(f"blockon-two-stores-in-thread[{k},{ordr}]", [spawn(2), st("f", 1, "rel"), st("f", 2, "rel"), WK, join(2)], [B2(ordr)]))
         A(P(f"two-blockons[{k}]", [spawn(2), BO(k), BO(k), join(2)], [st("f", 1, "rel"), WK]))
         # one AtomicWaker outlives a block_on: the second call's registration must replace the first one's
         BG = I("blockon", "w", o2="g", k=k, ord="acq")
@@ -1343,6 +1357,11 @@ def future_shapes():
         A(P(f"raw-wakeref-twice[{o}]", [spawn(2), R1, join(2)], [W8, I("wakeref", "sA"), st("f", 1, so), I("wakeref", "sA")]))
         A(P(f"raw-two-wakers[{o}]", [spawn(2), spawn(3), R2, join(2), join(3)], [W8, st("f", 1, so), I("wakeslot", "sA")],
             [W8, st("f2", 1, so), I("wakeslot", "sB")]))
+        # an intermediate store before the final one; the wake arrives during the poll (the waker waits for the announcement only)
+        R3 = I("blockon", "sA", o2="f", k="raw", ord=o, v=2)
+        A(P(f"raw-two-stores[{o}]", [spawn(2), R3, join(2)], [W8, st("f", 1, so), st("f", 2, so), I("wakeslot", "sA")]))
+        A(P(f"raw-two-stores-wakeref[{o}]", [spawn(2), R3, join(2)], [W8, st("f", 1, so), st("f", 2, so), I("wakeref", "sA")]))
+        A(P(f"raw-two-stores-in-thread[{o}]", [spawn(2), W8, st("f", 1, so), st("f", 2, so), I("wakeref", "sA"), join(2)], [R3]))
         A(P(f"raw-never-woken[{o}]", [spawn(2), R1, join(2)], [W8, st("f", 1, so)]))
     return out
 
